@@ -286,7 +286,33 @@ def check(repo: Repo, run: Run) -> None:
                 writes.append(mod.loc(n))
     run.ob("C14.F2", "base_functions|read-only", not writes, "base_functions is never written at run time" if not writes else f"base_functions is modified at {writes}", str(ev.path))
     rf = ev.func("Activation.resolve_function")
-    run.ob("C14.F2", "Activation.resolve_function", "return self.functions[name]" in ast.unparse(rf), "resolve_function looks the name up in the activation's chain", ev.loc(rf))
+    # on every returning path the value is `self.functions[name]` (locals substituted): a lookup in another table
+    # (base_functions directly, a copy taken earlier) would bypass the functions supplied for this program
+    from ..core.paths import paths_of as _rf_paths
+
+    rcls = ev.cls("Activation")
+    try:
+        rps = [p for p in _rf_paths(ev, rcls, rf) if p.kind == "return" and p.value is not None]
+    except OverflowError:
+        rps = []
+    me_rf = rf.args.args[0].arg
+    nm_rf = rf.args.args[1].arg if len(rf.args.args) > 1 else "name"
+    verdict_rf: Optional[bool] = True if rps else None
+    why_rf = "resolve_function looks the name up in the activation's chain"
+    for p in rps:
+        v = strip_cast(p.value)
+        if isinstance(v, ast.Subscript) and ast.unparse(strip_cast(v.value)) == f"{me_rf}.functions" and ast.unparse(strip_cast(v.slice)) == nm_rf:
+            continue
+        if isinstance(v, ast.Call) and isinstance(v.func, ast.Attribute) and v.func.attr in ("get", "__getitem__") and ast.unparse(strip_cast(v.func.value)) == f"{me_rf}.functions":
+            continue
+        if isinstance(v, ast.Subscript) and ast.unparse(strip_cast(v.value)).split(".")[-1] == "base_functions":
+            verdict_rf, why_rf = False, f"resolve_function returns `{ast.unparse(v)[:50]}`: the built-in table is consulted directly, so a function supplied for this program never replaces a built-in"
+            break
+        verdict_rf, why_rf = None, f"`{ast.unparse(v)[:60]}` was not recognised as a lookup in self.functions"
+    if verdict_rf is None:
+        run.inconclusive("C14.F2", "Activation.resolve_function", why_rf)
+    else:
+        run.ob("C14.F2", "Activation.resolve_function", verdict_rf, why_rf, ev.loc(rf))
     # F3 -----------------------------------------------------------------
     fnm = ev.func("Phase1Transpiler.func_name")
     attrs = {n.attr for n in ast.walk(fnm) if isinstance(n, ast.Attribute)}
